@@ -40,7 +40,7 @@ def verdictOf : SynSt → Option OpenRes
   | .ok => some .ok
   | .err msg =>
     if msg == "Protocol error: Session closed" then some .sessionError
-    else if msg == "Protocol error: stream closed by peer" then some .closedByPeer
+    else if msg == "Protocol error: Protocol error: stream closed by peer" then some .closedByPeer
     else some (.serverError msg)
 
 /-- requests whose timer has fired by `now` while nothing had resolved them -/
